@@ -131,8 +131,8 @@ OBLIGATIONS = [
 for pat in ("Dd", "PDp", "DdP", "C", "DpDd"):
     OBLIGATIONS.append(_mk_bound(pat, "both", 300))
 for pat in ("PDdP", "CDd", "PDpd"):
-    OBLIGATIONS.append(_mk_bound(pat, "thorough", 1800))
+    OBLIGATIONS.append(_mk_bound(pat, "thorough", 900))
 for pat in ("Dd", "PDp", "DdP", "C"):
     OBLIGATIONS.append(_mk_mono(pat, "both", 300))
 for pat in ("PDdP", "DpDd", "CDd", "PDpd"):
-    OBLIGATIONS.append(_mk_mono(pat, "thorough", 1800))
+    OBLIGATIONS.append(_mk_mono(pat, "thorough", 900))
